@@ -462,6 +462,31 @@ def build (b : AssetBinary) : Res BinArchive :=
   | .err e => .err e
   | .panic => .panic
 
+/-- The same construction through the per-record public API on an archive of the caller's byte
+order: `BinArchive::new(e)`, `allocate_at_end(4)`, `write_u32(0, flags)`, `AssetSpec::append` per
+spec, `allocate_at_end(4)`.  (`append` and `from_stream` take whatever archive they are handed;
+flag bytes and colours are bytes, `u32`/`f32` fields and the header word follow the archive's
+byte order.) -/
+def buildE (e : Endian) (b : AssetBinary) : Res BinArchive :=
+  let a := (BinArchive.new e).allocateAtEnd 4
+  match a.writeUInt 0 4 b.flags with
+  | .ok a =>
+    match appendAll b.specs a with
+    | .ok a => .ok (a.allocateAtEnd 4)
+    | .err e => .err e
+    | .panic => .panic
+  | .err e => .err e
+  | .panic => .panic
+
+theorem build_eq_buildE (b : AssetBinary) : build b = buildE .little b := rfl
+
+/-- `buildE` followed by `archive.serialize()`. -/
+def serializeE (c : Codec) (e : Endian) (b : AssetBinary) : Res Bytes :=
+  match buildE e b with
+  | .ok a => a.serialize c
+  | .err er => .err er
+  | .panic => .panic
+
 /-- `AssetBinary::serialize` (asset_binary.rs:596-605). -/
 def serialize (c : Codec) (b : AssetBinary) : Res Bytes :=
   match build b with
